@@ -120,6 +120,10 @@ def _impl(args):
         def restore():
             wnenv.close_pool()
             shutil.copy(snap, dbfile)
+            if sc['seed'] % 2:
+                # memory pressure: a page cache of a few pages, so that dirty pages of the failing
+                # transaction reach the database file before the failure
+                wn._db.connect().execute('PRAGMA cache_size = 1')
 
         pre_dump = dump(wn._db.connect())
 
@@ -143,12 +147,15 @@ def _impl(args):
         first_write = next((i for i, t in enumerate(trace) if t.lstrip().upper().startswith('INSERT')), 0)
 
         def check_after_fault(kind, pos, raised, extra=None):
-            conn = wn._db.connect()
-            after = dump(conn)
             rec = {'kind': kind, 'pos': pos, 'raised': raised}
             if extra:
                 rec.update(extra)
-            diff = {t: [len(pre_dump[t]), len(after[t])] for t in TABLES if pre_dump[t] != after[t]}
+            try:
+                conn = wn._db.connect()
+                after = dump(conn)
+                diff = {t: [len(pre_dump[t]), len(after[t])] for t in TABLES if pre_dump[t] != after[t]}
+            except sqlite3.DatabaseError as e:
+                diff = {'<database unreadable>': str(e)[:80]}
             rec['changed_tables'] = diff
             # the library stays usable: a following valid add gives the normal result
             try:
